@@ -299,7 +299,9 @@ fn parse_at_rule(
                 while let Ok(peek) = input.peek() {
                     match &*peek {
                         Token::Function(x) => {
-                            let xs: &str = &x;
+                            // function names are ASCII case-insensitive
+                            let xs = x.to_ascii_lowercase();
+                            let xs = xs.as_str();
                             if !matches!(xs, "layer" | "supports") {
                                 ss.add_warning(
                                     error::ParseErrorKind::UnexpectedCharacter,
